@@ -97,6 +97,7 @@ type Builder struct {
 	True   *Term
 	False  *Term
 	nfresh int
+	nmemo  map[int]*Term
 }
 
 func NewBuilder() *Builder {
@@ -574,6 +575,13 @@ func (b *Builder) Eq(x, y *Term) *Term {
 			}
 		}
 	}
+	if x.w > narrowW {
+		if nx, ok := b.narrow(x); ok {
+			if ny, ok2 := b.narrow(y); ok2 {
+				return b.Eq(nx, ny)
+			}
+		}
+	}
 	if x.id > y.id {
 		x, y = y, x
 	}
@@ -921,6 +929,75 @@ func (b *Builder) cmp(op Op, x, y *Term) *Term {
 // to state the very bound that a symbol's declared interval relies on.
 func (b *Builder) RawULe(x, y *Term) *Term { return b.mk(&Term{op: OpULe, args: []*Term{x, y}}) }
 func (b *Builder) RawSLe(x, y *Term) *Term { return b.mk(&Term{op: OpSLe, args: []*Term{x, y}}) }
+
+const narrowW = 16
+
+// narrow returns a narrowW-bit term with the same (unsigned) value as the
+// 64-bit term t when t provably fits and is built from zero-extensions,
+// small constants, sums with non-negative coefficients and ites thereof.
+func (b *Builder) narrow(t *Term) (*Term, bool) {
+	if t.w <= narrowW || t.hi > mask(narrowW) {
+		return nil, false
+	}
+	if b.nmemo == nil {
+		b.nmemo = map[int]*Term{}
+	}
+	if r, ok := b.nmemo[t.id]; ok {
+		return r, r != nil
+	}
+	var res *Term
+	switch t.op {
+	case OpConst:
+		res = b.BV(t.val, narrowW)
+	case OpZExt:
+		a := t.args[0]
+		if a.w <= narrowW {
+			res = b.ZExt(a, narrowW)
+		} else if n, ok := b.narrow(a); ok {
+			res = n
+		}
+	case OpIte:
+		x, okx := b.narrow(t.args[1])
+		y, oky := b.narrow(t.args[2])
+		if okx && oky {
+			res = b.Ite(t.args[0], x, y)
+		}
+	case OpAdd:
+		half := mask(t.w) >> 1
+		ok := t.val <= half
+		l := lin{w: narrowW, k: t.val}
+		type na struct {
+			t *Term
+			c uint64
+		}
+		var parts []na
+		for i, a := range t.args {
+			if !ok {
+				break
+			}
+			c := t.coefs[i]
+			if c > half || c > mask(narrowW) {
+				ok = false
+				break
+			}
+			n, okn := b.narrow(a)
+			if !okn {
+				ok = false
+				break
+			}
+			parts = append(parts, na{n, c})
+		}
+		if ok {
+			acc := b.BV(l.k, narrowW)
+			for _, p := range parts {
+				acc = b.Add(acc, b.Mul(p.t, b.BV(p.c, narrowW)))
+			}
+			res = acc
+		}
+	}
+	b.nmemo[t.id] = res
+	return res, res != nil
+}
 
 func (b *Builder) ULt(x, y *Term) *Term { return b.cmp(OpULt, x, y) }
 func (b *Builder) ULe(x, y *Term) *Term { return b.cmp(OpULe, x, y) }
